@@ -78,8 +78,8 @@ func collectValues(x interface{}, acc []interface{}) []interface{} {
 }
 
 // retype produces a Go-typed variant of a JSON value: core.Map for maps,
-// []string for non-empty all-string arrays, int for integral numbers at
-// map-value positions, as selected by the bits of mask.
+// []string for non-empty all-string arrays, int / int64 for integral numbers
+// (anywhere, also inside arrays), as selected by the bits of mask.
 type retyper struct {
 	mask int
 	site int
@@ -126,7 +126,13 @@ func (r *retyper) value(x interface{}, mapValue bool) interface{} {
 		}
 		return n
 	case float64:
-		if mapValue && v == float64(int(v)) && r.bit() {
+		_ = mapValue
+		if v == float64(int(v)) && r.bit() {
+			// (also inside arrays; int64 is what a script that
+			// returns an integral number hands over)
+			if r.site%2 == 0 {
+				return int64(v)
+			}
 			return int(v)
 		}
 	}
